@@ -156,7 +156,10 @@ def worker(job):
             if parser is None and not variant:
                 continue
             for toks in exprs:
-                w = " ".join(toks)
+                # layout of varying width in front of every token (also the first): "exactly the result" includes every node's layout_content
+                w = "".join(" " * ((i + len(toks)) % 3) + t for i, t in enumerate(toks)) if len(toks) > 1 else " " + toks[0]
+                if any(a[-1].isalnum() and b[0].isalnum() for a, b in zip(toks, toks[1:])):
+                    w = " ".join(toks)
                 pk, ptrees, pcomplete = _run(real, plain, w, parser_kind == "glr")
                 rec.calls = []
                 if parser is None:
